@@ -23,12 +23,12 @@ use std::sync::{Arc, Mutex};
 // C08
 // ------------------------------------------------------------------------------------------------
 
-pub const CHARSET_LABELS: [&str; 64] = [
+pub const CHARSET_LABELS: [&str; 69] = [
     "utf-8", "utf8", "unicode-1-1-utf-8", "UTF-8", "ibm866", "866", "iso-8859-2", "latin2", "iso-8859-3", "iso-8859-4", "iso-8859-5", "cyrillic", "iso-8859-6", "arabic", "iso-8859-7",
     "greek", "iso-8859-8", "hebrew", "iso-8859-8-i", "iso-8859-10", "iso-8859-13", "iso-8859-14", "iso-8859-15", "iso-8859-16", "koi8-r", "koi8-u", "macintosh", "windows-874", "windows-1250",
     "windows-1251", "windows-1252", "latin1", "ascii", "us-ascii", "iso-8859-1", "windows-1253", "windows-1254", "windows-1255", "windows-1256", "windows-1257", "windows-1258", "x-mac-cyrillic",
     "gbk", "gb2312", "gb18030", "hz-gb-2312", "big5", "big5-hkscs", "euc-jp", "iso-2022-jp", "shift_jis", "sjis", "euc-kr", "iso-2022-kr", "utf-16be", "utf-16le", "utf-16", "x-user-defined",
-    "replacement", "iso-2022-cn", "", "\"utf-8\"", "utf-7", "x-no-such",
+    "replacement", "iso-2022-cn", "", "\"utf-8\"", "utf-7", "x-no-such", "\"", "\"\"", "'", "\"utf-8", "utf-8\"",
 ];
 
 const DEGENERATE_TARGETS: [&[u8]; 22] = [
@@ -126,7 +126,9 @@ fn wild_wire(t: &mut Tape, out: &mut RunOut) -> Wire {
             4 => {
                 let cs = CHARSET_LABELS[t.below(CHARSET_LABELS.len())];
                 out.probe("charset_label_used");
-                let v = match t.below(6) {
+                let v = match t.below(8) {
+                    6 => format!("application/json; charset={}", cs),
+                    7 => format!("text/plain;charset={};charset=", cs),
                     0 => "application/x-www-form-urlencoded".to_string(),
                     1 => format!("application/x-www-form-urlencoded;charset={}", cs),
                     2 => format!("application/x-www-form-urlencoded ; CHARSET = {}", cs),
